@@ -290,6 +290,40 @@ let apply (si : stepinfo) : string option =
              set { x with g = get "gen_preimage" (gen_preimage (nat x.n) (nat var) a b d m x.g); cv = None }; Some "ok"
            end
        | _ -> failwith "gimage")
+  | "gimagel" | "gpreimagel" ->
+      (* expression-on-the-left forms: the transfer relation is  lhs(x') = rhs(x) (mod m)  with x' = x on the
+         variables that do not occur in lhs.  Reference = composition of the verified operators in dimension n+1:
+         image:    t := rhs(x) (+ m Z);  forget the variables of lhs;  meet with lhs(x) = t;  drop t
+         preimage: t := lhs(x);          forget the variables of lhs;  meet with rhs(x) = t (mod m);  drop t *)
+      (match rest with
+       | rel :: m :: tl ->
+           let m = z_of_string m in
+           let n = x.n in
+           let rec take k l = if k = 0 then [], l else (match l with h :: t -> let a, b = take (k - 1) t in h :: a, b | [] -> failwith "gimagel") in
+           let lb, tl = (match tl with h :: t -> z_of_string h, t | [] -> failwith "gimagel") in
+           let la, tl = take n tl in
+           let rb, tl = (match tl with h :: t -> z_of_string h, t | [] -> failwith "gimagel") in
+           let ra, _ = take n tl in
+           let la = List.map z_of_string la and ra = List.map z_of_string ra in
+           let lvars = List.filter (fun i -> not (z_is_zero (List.nth la i))) (List.init n (fun i -> i)) in
+           extra_info := [ "lhs_vars", string_of_int (List.length lvars);
+                           "common", (if List.exists (fun i -> not (z_is_zero (List.nth ra i))) lvars then "1" else "0");
+                           "modulus", (if z_is_zero m then "0" else "nz") ];
+           if rel <> "eq" then
+             (if not (z_is_zero m) then Some "exn invalid_argument"
+              else (set { x with g = List.fold_left (fun g v -> unconstrain (nat v) g) x.g lvars; cv = None }; Some "ok"))
+           else begin
+             let m = Z.abs m in
+             let g1 = add_dims_embed (nat n) (nat 1) x.g in
+             let (ea, eb) = if si.op = "gimagel" then (ra, rb) else (la, lb) in
+             let g2 = gen_image (nat n) ea eb (z_of_int 1) (if si.op = "gimagel" then m else Z0) g1 in
+             let g3 = List.fold_left (fun g v -> unconstrain (nat v) g) g2 lvars in
+             let (ca, cb) = if si.op = "gimagel" then (la, lb) else (ra, rb) in
+             let c = { cg_a = ca @ [ z_of_int (-1) ]; cg_b = cb; cg_m = (if si.op = "gimagel" then Z0 else m) } in
+             let g4 = get "gens_add_cgs" (gens_add_cgs (nat (n + 1)) g3 [ c ]) in
+             set { x with g = remove_higher (nat n) g4; cv = None }; Some "ok"
+           end
+       | _ -> failwith "gimagel")
   | "relgen" ->
       let g = qgen_of (gen_of_toks rest) in
       extra_info := [ "gen_kind", List.hd rest ];
